@@ -394,6 +394,12 @@ func (ex *Exec) execReturn(st *State, s *ast.ReturnStmt) {
 	for i, nm := range names {
 		if i < len(vals) {
 			v := ex.convertTo(st, vals[i], ex.fi.Sig.Results().At(i).Type())
+			if (v.GoT == nil || isUntypedNil(v.GoT)) && v.Loc == nil && v.T != nil {
+				// `return nil`: the contract sees the value at the result's type
+				b := *v
+				b.GoT = ex.fi.Sig.Results().At(i).Type()
+				v = &b
+			}
 			extra[nm] = v
 			if nm != "result" && len(names) == 1 {
 				extra["result"] = v
